@@ -13,14 +13,16 @@ structure SpecOut where
   stdout : List Nat
 deriving Repr, DecidableEq
 
-/-- `compute` returns the bytes to print, or fails with a diagnosed error (wrong dimensionality, invalid option …). -/
-def specCli (compute : List Nat × List Nat → Option (List Nat)) (bytes : List Nat) : SpecOut :=
+/-- `compute` returns the bytes to print, or fails with a diagnosed error (wrong dimensionality, invalid option, an npy header that
+    does not fit …) after having printed some bytes — the header row of `sfs stat -H` in front of a statistic that does not apply, the
+    npy magic and version in front of a header that is too long; a run that fails keeps what it had already written. -/
+def specCli (compute : List Nat × List Nat → Except (List Nat) (List Nat)) (bytes : List Nat) : SpecOut :=
   match readSpectrum bytes with
   | .error _ => ⟨1, []⟩
   | .ok s =>
     match compute s with
-    | none => ⟨1, []⟩
-    | some out => ⟨0, out⟩
+    | .error written => ⟨1, written⟩
+    | .ok out => ⟨0, out⟩
 
 /-- `Input::new` (`core/src/input.rs`): with a path argument while stdin is not a terminal, or without a path while stdin
     is a terminal, the invocation is refused — unless the environment variable `SFS_ALLOW_STDIN` is set. -/
